@@ -48,6 +48,8 @@ TDec  == /\ Ev("Dec") /\ Consume /\ WaitDec(Rec.t)
 TCas  == /\ Ev("Cas") /\ Consume
          /\ IF Rec.ok = 1 THEN UndoCasOk(Rec.t) /\ value = Rec.old /\ value' = Rec.new
                           ELSE UndoCasFail(Rec.t) /\ value = Rec.old
+\* an atomic load of the counter changes nothing (tolerated: the pinned code has none)
+TLoad == Ev("Load") /\ Consume /\ value = Rec.old /\ UNCHANGED vars
 TPost == Ev("Post") /\ Consume /\ SigPost(Rec.t)
 TWaitRet == Ev("WaitRet") /\ Consume /\ KsemWait(Rec.t)
 TTimedRet == /\ Ev("TimedRet") /\ Consume
@@ -56,7 +58,7 @@ TTimedRet == /\ Ev("TimedRet") /\ Consume
 TSilent == /\ l <= Len(Tr) /\ UNCHANGED l
            /\ \E t \in Threads : UndoRead(t)
 
-TNext == TReset \/ TCallSignal \/ TCallWait \/ TRetSignal \/ TRetWait \/ TInc \/ TDec \/ TCas
+TNext == TLoad \/ TReset \/ TCallSignal \/ TCallWait \/ TRetSignal \/ TRetWait \/ TInc \/ TDec \/ TCas
          \/ TPost \/ TWaitRet \/ TTimedRet \/ TSilent
 
 TSpec == TInit /\ [][TNext]_tvars
